@@ -35,9 +35,9 @@ namespace HeartwoodModel.Driver.C13
 open HeartwoodModel.Driver.Util
 
 /-- Version of `service.rs` mirrored by the driver. -/
-def serviceCode : HeartwoodModel.ServiceInput.Code := HeartwoodModel.ServiceInput.Code.current
+def serviceCode : HeartwoodModel.ServiceInput.Code := HeartwoodModel.ServiceInput.Code.fixed
 /-- Version of `wire/protocol.rs` mirrored by the driver. -/
-def streamsCode : HeartwoodModel.Streams.Code := HeartwoodModel.Streams.Code.current
+def streamsCode : HeartwoodModel.Streams.Code := HeartwoodModel.Streams.Code.fixed
 
 /-! ### (a) -/
 section A
